@@ -512,7 +512,11 @@ func (ex *Expect) evalComponent(ni int) {
 				lin.Source = true
 				ex.Lins[Abs(f)] = lin
 			}
-			st.Items = append(st.Items, Item{Path: f, Content: []byte(w.Sources[f]), Lin: lin})
+			content := []byte(w.Sources[f])
+			if b, ok := ex.Files[Abs(f)]; ok {
+				content = b // a file produced by an upstream task (dependent globber)
+			}
+			st.Items = append(st.Items, Item{Path: f, Content: content, Lin: lin})
 		}
 		ex.Streams[n.Name+".out"] = st
 	case KFileToParams, KCmdToParams:
